@@ -116,6 +116,10 @@ CONTRACTS = {
                     "ghost: last duration read": "implies(result is not None, obj.g_dur == unwrap(result))"},
         "note": "getattr(self, '<state>_duration', 0xFFFFFFFF): the value of the duration tunable at entry (arbitrary >= 0; see C09 for the NT key)",
     },
+    f"{SM}.current_state.__get__": {
+        "kind": "external", "params": {}, "returns": "Str", "modifies": [], "ensures": {"the NT value": "result == self.nt_current_state"},
+        "note": "reading the current_state tunable (C09): the string last assigned",
+    },
     f"{SM}.current_state.__set__": {
         "kind": "external", "params": {"value": "Str"}, "modifies": ["self.nt_current_state"],
         "ensures": {"the NT value is the assigned string": "self.nt_current_state == value"},
@@ -133,13 +137,14 @@ CONTRACTS = {
             "C01.S1 without engage() a non-default state only runs if the machine had not stopped (a non-default state was current at entry)":
                 "implies(not (self is DF(sm)) and not old(SE(sm)), old(ST(sm)) is not None and not (old(ST(sm)) is DF(sm)))",
             "C02.B2 on entry the expiry is start_time + the duration read now": f"implies(initial_call, self.expires == self.start_time + (sm.g_dur if timed(self) else {BIG}))",
+            "C02.B6 the duration is the tunable's value AT ENTRY: while the same stint continues the expiry does not move": "implies(not initial_call, self.expires == old(self.expires) and self.start_time == old(self.start_time))",
             "C02.B3 the current state keeps running until tm exceeds its expiry (and runs once before it can expire)":
                 "implies(old(ST(sm)) is not None and not expired0(sm, tm) and (old(SE(sm)) or old(ST(sm)).must_finish), "
                 "self is old(ST(sm)) and initial_call == (not old(self.ran)))",
             "C02.B4 on expiry control passes to next_state, whose clock starts at the predecessor's expiry":
                 "implies(expired0(sm, tm) and old(ST(sm)).next_state is not None and (old(SE(sm)) or target(sm, old(ST(sm))).must_finish), "
                 "self is target(sm, old(ST(sm))) and initial_call and self.start_time == old(old(ST(sm)).expires))",
-            "C02.B5 when the last timed state expires under continued engagement the first state restarts at the expiry instant":
+            "C02.B5 (also C03, C04: tm restarts at zero at the expiry instant) when the last timed state expires under continued engagement the first state restarts at the expiry instant":
                 "implies(expired0(sm, tm) and old(ST(sm)).next_state is None and not (self is DF(sm)), "
                 "self is STATES(sm)[FIRST(sm)] and initial_call and self.start_time == 0 and EN(sm) "
                 "and START(sm) == old(START(sm)) + old(old(ST(sm)).expires) and sm.g_done > old(sm.g_done))",
@@ -237,7 +242,7 @@ CONTRACTS = {
                                "aflag or not se"}},
         "modifies": _CB_MOD,
         "ensures": dict({
-            "C01.X0 the request is consumed at the end of the iteration": "not se",
+            "C01.X0 (also C13: the autonomous machine's per-iteration engage() must still be pending while the state function runs) the request is consumed at the end of the iteration": "not se",
             "C01.X1 if engage() was called and done() was not invoked, a state function ran": "implies(old(se) and self.g_done == old(self.g_done), self.g_runs > old(self.g_runs))",
             "C04.X3 when no state function ran and the machine had something to stop, it is stopped through done()":
                 "implies(self.g_runs == old(self.g_runs) and (old(se) or old(en)), st is None and not en and cs == '' and self.g_done > old(self.g_done))",
